@@ -99,6 +99,10 @@ func checkC09(w *World, c *Check, tier string) {
 	c.floor("C09.cover", 30)
 	c.floor("C09.dispatch", 14)
 	c.floor("C09.idtype", 4)
+	c.floor("C09.accessor", 42)
+	c.floor("C09.exact", 3)
+	checkExactTextEquality(w, c, "C09.exact")
+	checkAccessors(w, c, "C09.accessor", []string{"GetType", "GetID", "GetLink"})
 	pr := newProver(w)
 	objEq := w.Method("Object", "Equals")
 	itemsEqual := w.Func("ItemsEqual")
@@ -752,6 +756,8 @@ func checkC19(w *World, c *Check, tier string) {
 	c.RuleText = "obligations per accessor of the container; exhaustive over Get/Set/Count/First/Equals"
 	c.Trusted = []string{"go/ssa", "apcheck prov.go"}
 	c.floor("C19.eq", 3)
+	c.floor("C19.exact", 3)
+	checkExactTextEquality(w, c, "C19.exact")
 	c.floor("C19.set", 2)
 	pr := newProver(w)
 	lrvEq := w.Method("LangRefValue", "Equals")
@@ -1235,6 +1241,72 @@ func checkC19(w *World, c *Check, tier string) {
 			c.bad("C19.set", "Set:append-when-missing", w.FuncPos(set), appendBad)
 		} else {
 			c.ok("C19.set", "Set:append-when-missing", w.FuncPos(set), "appends only when no entry matched")
+		}
+		// frame: Set, and every package function it hands its receiver to, changes the list only by overwriting an entry
+		// in place or by growing it by one entry at the end: the list header is never re-sliced, shrunk or spliced, and
+		// no entry is copied over another (a clean-up of "leftover" duplicates moves the last entry into the hole: the
+		// order changes and Get of another tag returns a different text)
+		{
+			frameBad := ""
+			var framePos ssa.Instruction
+			seenFn := map[*ssa.Function]bool{}
+			var visit func(fn *ssa.Function, recv ssa.Value, d int)
+			visit = func(fn *ssa.Function, recv ssa.Value, d int) {
+				if fn == nil || fn.Blocks == nil || seenFn[fn] || d > 3 {
+					return
+				}
+				seenFn[fn] = true
+				isListLoad := func(v ssa.Value) bool {
+					ld, ok := unwrap(v).(*ssa.UnOp)
+					return ok && ld.Op == token.MUL && ld.X == recv
+				}
+				for _, b := range fn.Blocks {
+					for _, in := range b.Instrs {
+						switch x := in.(type) {
+						case *ssa.Store:
+							if x.Addr == recv {
+								okGrow := false
+								if call, isCall := unwrap(x.Val).(*ssa.Call); isCall {
+									if bi, isB := call.Common().Value.(*ssa.Builtin); isB && bi.Name() == "append" && len(call.Common().Args) == 2 && isListLoad(call.Common().Args[0]) {
+										if elems, okE := variadicElems(call.Common().Args[1]); okE && len(elems) == 1 {
+											okGrow = true
+										}
+									}
+								}
+								if !okGrow && frameBad == "" {
+									frameBad = fmt.Sprintf("%s assigns the list something other than itself grown by one entry (%s): entries are removed or re-ordered by a call of Set", funcName(fn), shortVal(x.Val))
+									framePos = x
+								}
+							}
+							if ia, isIdx := x.Addr.(*ssa.IndexAddr); isIdx && isListLoad(ia.X) {
+								// a whole entry copied from another entry of the same list
+								if ld, isLd := unwrap(x.Val).(*ssa.UnOp); isLd && ld.Op == token.MUL {
+									if ia2, isIdx2 := ld.X.(*ssa.IndexAddr); isIdx2 && isListLoad(ia2.X) && frameBad == "" {
+										frameBad = fmt.Sprintf("%s copies one entry of the list over another: the order of the entries changes under Set", funcName(fn))
+										framePos = x
+									}
+								}
+							}
+						case *ssa.Call:
+							cal := x.Common().StaticCallee()
+							if cal == nil || !w.InPkg(cal) {
+								continue
+							}
+							for ai, a := range x.Common().Args {
+								if a == recv && ai < len(cal.Params) {
+									visit(cal, cal.Params[ai], d+1)
+								}
+							}
+						}
+					}
+				}
+			}
+			visit(set, set.Params[0], 0)
+			if frameBad != "" {
+				c.bad("C19.set", "Set:frame", w.InstrPos(framePos), frameBad)
+			} else {
+				c.ok("C19.set", "Set:frame", w.FuncPos(set), fmt.Sprintf("in the %d functions that receive Set's list it is only overwritten in place or grown by one entry", len(seenFn)))
+			}
 		}
 	} else {
 		c.bad("C19.set", "Set", "-", "method not found")
